@@ -253,6 +253,16 @@ func c45fanout(k *eng.Check) {
 			if x.Call.IsInvoke() && (x.Call.Method.Name() == "ExecuteForWorkingSets" || x.Call.Method.Name() == "ExecuteForReplicaWrite") {
 				answeredNo.AddE(c39edge(iff, !branch))
 			}
+		case *ssa.Phi:
+			// `shouldExecute := (!onlyWS || hook.ExecuteForWorkingSets()) && (...)`; `if shouldExecute`: the value phi carries
+			// a hook's answer; its false edge is "a hook answered no" (constant-false operands arrive through the
+			// answered-no edges of the individual tests, which are cuts already)
+			if eng.Mentions(x, func(v ssa.Value) bool {
+				cc, ok := v.(*ssa.Call)
+				return ok && cc.Call.IsInvoke() && (cc.Call.Method.Name() == "ExecuteForWorkingSets" || cc.Call.Method.Name() == "ExecuteForReplicaWrite")
+			}) {
+				answeredNo.AddE(c39edge(iff, !branch))
+			}
 		}
 	}
 	k.OnlyAfter("hooks-launched", fn, "with both filter flags false the next hook is reached only after the current one was launched", heads, 1, eng.UnionOf(launches, flagTrue), starts...)
